@@ -308,6 +308,21 @@ func (c *Client) monitor(ctx context.Context) {
 	defer c.mcancel()
 	defer c.setState(ctx, Closed)
 
+	// Close may have run while a reconnect was creating a new secure
+	// channel. Close has not seen that channel and nobody else closes it.
+	defer func() {
+		if ctx.Err() == nil {
+			return
+		}
+		if sc := c.SecureChannel(); sc != nil {
+			sc.Close()
+			c.setSecureChannel(nil)
+		}
+		if c.conn != nil {
+			c.conn.Close()
+		}
+	}()
+
 	action := none
 	for {
 		select {
